@@ -58,6 +58,7 @@ class PathValues:
         self.returns = []
         self.asserts = []
         self.events = []        # ('guard', expr, pol) | ('assign', name, expr) | ('return', expr) in path order
+        self.stmts = []         # (original statement, copy with reaching values substituted) for non-simple statements
         for it in path.items:
             k = it.kind
             if k == 'guard':
@@ -77,9 +78,22 @@ class PathValues:
                     v = subst(st.value, self.env)
                     self.env[name] = v
                     self.events.append(('assign', name, v))
+                elif isinstance(st, ast.Assign) and len(st.targets) == 1 and isinstance(st.targets[0], (ast.Tuple, ast.List)) and \
+                        isinstance(st.value, (ast.Tuple, ast.List)) and len(st.value.elts) == len(st.targets[0].elts) and \
+                        all(pseudo(t) is not None for t in st.targets[0].elts):
+                    vals = [subst(v, self.env) for v in st.value.elts]       # simultaneous assignment
+                    for t, v in zip(st.targets[0].elts, vals):
+                        self.env[pseudo(t)] = v
+                        self.events.append(('assign', pseudo(t), v))
                 elif isinstance(st, ast.AnnAssign) and st.value is not None and pseudo(st.target) is not None:
                     self.env[pseudo(st.target)] = subst(st.value, self.env)
                 else:
+                    # any other statement (store into a subscript / attribute, call, augmented assignment): keep a copy with
+                    # the values known at this point substituted into the names it reads
+                    try:
+                        self.stmts.append((st, _Subst(self.env).visit(copy.deepcopy(st))))
+                    except Exception:
+                        pass
                     for nm in _assigned_names(st):
                         self.env.pop(nm, None)
             elif k in ('loop', 'loop_exit', 'try_partial', 'with', 'handler', 'opaque_if'):
